@@ -330,6 +330,9 @@ func c12Gen(t *rapid.T) c12Case {
 		c.DX, c.DY = max(-M-lo.X, min(M-hi.X, c.DX%7)), max(-M-lo.Y, min(M-hi.Y, c.DY%7))
 	}
 	c.K = rapid.IntRange(-12, 12).Draw(t, "k")
+	if rapid.IntRange(0, 3).Draw(t, "bigk") == 0 {
+		c.K = rapid.SampledFrom([]int{-60, -40, -30, -24, -20, 20, 30, 40, 60}).Draw(t, "kfar")
+	}
 	return c
 }
 
